@@ -82,8 +82,10 @@ def _tl_handler(signum, frame):
 
 
 class time_limit:
-    """Context manager: raise Hang in the main thread if the body runs longer than `seconds`.
-    The SIGALRM handler is installed once and stays installed (it ignores ticks while nothing is timed)."""
+    """Context manager: raise Hang in the main thread if the body uses more than `seconds` of CPU time (ITIMER_VIRTUAL:
+    machine load must not turn into a verdict), with a wall-clock backstop at 20 x `seconds` (at least 60 s) for bodies
+    that wait rather than compute.  The handlers are installed once and stay installed (they ignore ticks while nothing
+    is timed)."""
 
     def __init__(self, seconds: float):
         self.seconds = seconds
@@ -92,22 +94,26 @@ class time_limit:
         import signal
 
         if not _TL["installed"]:
+            signal.signal(signal.SIGVTALRM, _tl_handler)
             signal.signal(signal.SIGALRM, _tl_handler)
             _TL["installed"] = True
         _TL["deadline"] = time.time() + self.seconds
         _TL["active"] = True
-        signal.setitimer(signal.ITIMER_REAL, self.seconds)
+        signal.setitimer(signal.ITIMER_VIRTUAL, self.seconds)
+        signal.setitimer(signal.ITIMER_REAL, max(60.0, 20 * self.seconds))
         return self
 
     def __exit__(self, *exc):
         import signal
 
-        try:
-            _TL["active"] = False
-            signal.setitimer(signal.ITIMER_REAL, 0)
-        except Hang:  # the tick arrived while leaving: the body had finished, nothing to report
-            _TL["active"] = False
-            signal.setitimer(signal.ITIMER_REAL, 0)
+        for _ in range(2):
+            try:
+                _TL["active"] = False
+                signal.setitimer(signal.ITIMER_VIRTUAL, 0)
+                signal.setitimer(signal.ITIMER_REAL, 0)
+                break
+            except Hang:  # the tick arrived while leaving: the body had finished, nothing to report
+                continue
         return False
 
 
